@@ -111,13 +111,13 @@ func runC10(c *core.Ctx) {
 		}
 		return false
 	}
-	c.Cases("conn", c.N(160, 3000), c10Conn)
-	c.Cases("writer", c.N(100, 2000), c10Writer)
-	c.Cases("reader", c.N(120, 2400), c10Reader)
-	c.Cases("client", c.N(80, 1500), c10Client)
+	c.Cases("conn", c.N(160, 8000), c10Conn)
+	c.Cases("writer", c.N(100, 5000), c10Writer)
+	c.Cases("reader", c.N(120, 6000), c10Reader)
+	c.Cases("client", c.N(80, 4000), c10Client)
 	c.Cases("balancers", c.N(32, 320), c10Balancers)
 	c.Cases("codecs", c.N(32, 320), c10Codecs)
-	c.Cases("engines", c.N(96, 1600), c10Engines)
+	c.Cases("engines", c.N(96, 4000), c10Engines)
 }
 
 // ---- Conn and Batch ----
